@@ -786,6 +786,19 @@ func c11(c *fw.Ctx) {
 	}
 	c.Exhaustive("the 36 Aztec symbol sizes")
 
+	neci := c.Pick(30, 600)
+	for i := 0; i < neci; i++ {
+		c.Run(fmt.Sprintf("eci/%d", i), func(r *fw.Rec) { c11ECICase(r) })
+	}
+	c.Floor("eci_streams_decoded", int64(neci*20))
+	for si, s := range azref.AllSpecs() {
+		s := s
+		for k := 0; k < c.Pick(1, 12); k++ {
+			c.Run(fmt.Sprintf("canvas/%d/%d", si, k), func(r *fw.Rec) { c11CanvasCase(r, s) })
+		}
+	}
+	c.Floor("portrait_canvas_reads", 50)
+	c.Floor("landscape_canvas_reads", 50)
 	nreuse := c.Pick(40, 600)
 	for i := 0; i < nreuse; i++ {
 		c.Run(fmt.Sprintf("reuse/%d", i), func(r *fw.Rec) { c11ReuseCase(r) })
